@@ -27,6 +27,9 @@ RULE = ('state = (table, format, dialect/encoder arguments, text encoding, targe
         'Tables: every string of length <= L over a 12-character hostile alphabet (letter , " \' CR LF NUL space '
         'non-ASCII TAB ; backslash) and every string of length <= L over an 11-character line-boundary alphabet '
         '(letter , " VT FF FS GS RS NEL U+2028 U+2029: where str.splitlines splits but csv / json-lines must not) '
+        'and over a 7-character signature alphabet (letter , " U+FEFF U+FFFE U+200B U+00A0: what a decoder or a '
+        'tolerant reader may swallow, in particular as the very first character of the file; run with utf-8 under '
+        'three spellings, utf-8-sig, utf-16, latin-1, ascii, locale default, and with reader errors=replace/ignore) '
         'in every cell position of header-only, 1x1, 1x2 and 2x1 tables, all 2x2 grids '
         'of single hostile characters (as data and as header+row), typed cells (None int float bool str) in '
         'ragged / empty / over-long rows. A csv state is non-trivial when the written text holds a character '
@@ -42,7 +45,7 @@ RULE = ('state = (table, format, dialect/encoder arguments, text encoding, targe
         'back as float by the csv module), text not encodable in the chosen codec (ascii / locale default are '
         'run on the ASCII subset, latin-1 on code points < 256), QUOTE_STRINGS/QUOTE_NOTNULL (reader side differs between 3.12 and 3.13), '
         'tables without a header row, json tables with zero rows / non-text or duplicate field names')
-ASSUMPTIONS = ['cell text bounded to length 2 (quick) / 3 (thorough) over 12 hostile + 11 line-boundary characters (two separate families, not mixed); tables have <= 3 rows, <= 3 cells per row',
+ASSUMPTIONS = ['cell text bounded to length 2 (quick) / 3 (thorough) over 12 hostile, 11 line-boundary and 7 signature characters (three separate families, not mixed); tables have <= 3 rows, <= 3 cells per row',
                'five codecs stand for "every text encoding": utf-8, utf-16 (BOM-writing), latin-1, ascii, locale default (None)',
                'lineterminator, doublequote, escapechar, skipinitialspace left at their defaults (statement)',
                'compressed appends are compared after decompression with the stdlib (multi-member streams differ bytewise by design)',
@@ -61,7 +64,9 @@ EXT = {'path': '', 'gz': '.gz', 'bz2': '.bz2'}
 PROTOCOLS = [-1, 0, 2]
 
 CROSSING = {
-    'quick': 'hostile strings(<=2) x 12 placements: [34 call forms on MemorySource/utf-8] + [2 default forms x 5 codecs x 4 target '
+    'quick': 'signature strings(<=2) x 12 placements: [34 forms x {utf-8, utf-8-sig, utf-16} x write_header on/off on MemorySource] + '
+             '[2 default forms x 8 codec spellings x 4 kinds x 2 flag combinations] + [2 default forms x 8 spellings x reader '
+             'errors in {replace, ignore}]; hostile strings(<=2) x 12 placements: [34 call forms on MemorySource/utf-8] + [2 default forms x 5 codecs x 4 target '
              'kinds x 4 header-flag combinations]; line-boundary strings(<=2) x 12 placements: [34 forms on MemorySource/utf-8] + '
              '[2 default forms x 5 codecs x 4 kinds]; 2x2 grids: 2 default forms on MemorySource/utf-8; typed/ragged tables: '
              '34 forms x 4 flag combinations on MemorySource/utf-8; append: 39 sequences x all write_header flags x 2 '
@@ -69,7 +74,8 @@ CROSSING = {
              'written / appended table x 34 forms x 3 flag combinations on MemorySource and .gz; target reuse: 16 (prior, table) '
              'pairs x [read back, 2 appended tables] x write_header x {3 dialects x 3 codecs | 3 pickle protocols | json array, '
              'lines | jsonarrays with/without header} x 4 target kinds',
-    'thorough': 'line-boundary strings(<=3) x 12 placements: [34 forms on MemorySource/utf-8]; line-boundary strings(<=2): as '
+    'thorough': 'signature strings(<=3) as quick on MemorySource; signature strings(<=2): [34 forms x 8 codec spellings x 4 kinds] + '
+                '[2 default forms x 8 spellings x 4 kinds x 4 flag combinations] + reader errors; line-boundary strings(<=3) x 12 placements: [34 forms on MemorySource/utf-8]; line-boundary strings(<=2): as '
                 'hostile strings(<=2) below; hostile strings(<=3) x 12 placements: [34 forms on MemorySource/utf-8] + [2 default forms x 5 codecs x 4 kinds]; '
                 'strings(<=2) x 12 placements: [34 forms x 5 codecs x 4 kinds] + [2 default forms x 5 codecs x 4 kinds x 4 '
                 'flag combinations]; 2x2 grids: 34 forms on MemorySource/utf-8; typed/ragged tables: [34 forms x 4 kinds x 4 '
@@ -109,6 +115,23 @@ def boundary_alphabet(seed):
 
 def boundary_strings(seed, maxlen):
     return [''.join(t) for t in spaces.tuples_upto(boundary_alphabet(seed), maxlen)]
+
+
+def signature_alphabet(seed):
+    """Characters a decoder or a 'tolerant' reader may swallow or normalise: U+FEFF (the BOM / zero width
+    no-break space, legitimate cell text), U+FFFE (its byte-swapped twin), U+200B zero width space, U+00A0
+    no-break space - with a letter, the default delimiter and the default quotechar."""
+    letter = spaces.reps(seed)['s1']
+    return [letter, ',', '"', '\ufeff', '\ufffe', '\u200b', '\xa0']
+
+
+def signature_strings(seed, maxlen):
+    return [''.join(t) for t in spaces.tuples_upto(signature_alphabet(seed), maxlen)]
+
+
+# the same codec under several spellings, utf-8-sig as a codec of its own (it writes a signature and strips
+# exactly one on reading, so it is lossless too)
+Z_ENCS = ['utf-8', 'UTF8', 'utf_8', 'utf-8-sig', 'utf-16', 'latin-1', 'ascii', None]
 
 
 def filler(seed):
@@ -229,7 +252,7 @@ def json_tables(seed, maxlen):
     for n1, n2, n3 in itertools.permutations(N[:4], 3):
         out.append(((n1, n2, n3), (1, 2, 3), (4,)))
     # hostile text as cell and as field name
-    for s in strings(seed, maxlen) + boundary_strings(seed, 2)[1:]:
+    for s in strings(seed, maxlen) + boundary_strings(seed, 2)[1:] + signature_strings(seed, 2)[1:]:
         out.append(((f,), (s,)))
         if s != f:
             out.append(((s,), (f,)))
@@ -305,7 +328,7 @@ def _full_csvargs(fn, args):
     return full
 
 
-def csv_case(fn, table, kind, enc, wh, hdr, dialect, prior=None):
+def csv_case(fn, table, kind, enc, wh, hdr, dialect, prior=None, rerrors=None):
     """None = holds; 'excluded'; or (signature, expected, observed).  With `prior` the SAME source object /
     path is first written with to*(prior): the second to* must replace that content completely."""
     args = csvargs_of(dialect)
@@ -327,6 +350,8 @@ def csv_case(fn, table, kind, enc, wh, hdr, dialect, prior=None):
     except Exception as e:
         return ('write raises %s' % type(e).__name__, exp, _exc(e))
     try:
+        if rerrors is not None:       # a lenient reader must read a validly encoded file exactly like a strict one
+            args = dict(args, errors=rerrors)
         got = list(FROM[fn](t.source(), encoding=enc, header=hdr, **args))
     except Exception as e:
         return ('read-back raises %s' % type(e).__name__, exp, _exc(e))
@@ -450,7 +475,8 @@ def replay(case):
         hdr = case['hdr']
         r = csv_case(case['fn'], tb(case['table']), case['target'], case['enc'], case['wh'],
                      None if hdr is None else tuple(hdr),
-                     None if case['dialect'] is None else tuple(case['dialect']), prior=prior)
+                     None if case['dialect'] is None else tuple(case['dialect']), prior=prior,
+                     rerrors=case.get('rerrors'))
     elif k == 'pickle':
         r = pickle_case(tb(case['table']), case['target'], case['wh'], case['protocol'], prior=prior)
     elif k == 'json':
@@ -545,6 +571,7 @@ def setup(tier, seed):
         'tier': tier, 'seed': seed, 'L': L, 'f': f,
         'S': S, 'S2': strings(seed, 2), 'A': alphabet(seed),
         'LB': boundary_strings(seed, L), 'LB2': boundary_strings(seed, 2),
+        'Z': signature_strings(seed, L), 'Z2': signature_strings(seed, 2),
         'typed': typed_tables(seed), 'app': append_tables(seed), 'reuse': reuse_tables(seed),
         'pickle': pickle_tables(seed), 'json': json_tables(seed, 2 if tier == 'quick' else 3),
     })
@@ -553,6 +580,7 @@ def setup(tier, seed):
 def bounds(tier, seed):
     return {'max_cell_text_length': _G['L'], 'alphabet': 12, 'strings': len(_G['S']),
             'line_boundary_alphabet': 11, 'line_boundary_strings': len(_G['LB']),
+            'signature_alphabet': 7, 'signature_strings': len(_G['Z']), 'signature_encodings': [str(e) for e in Z_ENCS],
             'placements_per_string': 12, 'grid_tables': 2 * 12 ** 4, 'typed_tables': len(_G['typed']),
             'pickle_tables': len(_G['pickle']), 'json_tables': len(_G['json']),
             'append_base_tables': len(_G['app']), 'reuse_tables': len(_G['reuse']),
@@ -593,6 +621,8 @@ def items(tier, seed):
         out += [('A', 'env', lo, hi) for lo, hi in _slices(nS, 4)]
         out += [('L', 'dialects', lo, hi) for lo, hi in _slices(len(_G['LB']), 8)]
         out += [('L', 'envlite', lo, hi) for lo, hi in _slices(len(_G['LB']), 8)]
+        out += [('Z', 'zmem', lo, hi) for lo, hi in _slices(len(_G['Z']), 4)]
+        out += [('Z', 'zenv', lo, hi) for lo, hi in _slices(len(_G['Z']), 4)]
         out += [('B', v, i, 'default') for v in ('data', 'hdr') for i in range(12)]
         out += [('C', 'mem', lo, hi) for lo, hi in _slices(len(_G['typed']), 120)]
     else:
@@ -601,6 +631,8 @@ def items(tier, seed):
         out += [('A', 'full', lo, hi) for lo, hi in _slices(nS2, 2)]
         out += [('L', 'dialects', lo, hi) for lo, hi in _slices(len(_G['LB']), 24)]
         out += [('L', 'full', lo, hi) for lo, hi in _slices(len(_G['LB2']), 2)]
+        out += [('Z', 'zmem', lo, hi) for lo, hi in _slices(len(_G['Z']), 8)]
+        out += [('Z', 'zfull', lo, hi) for lo, hi in _slices(len(_G['Z2']), 1)]
         out += [('B', v, i, 'all') for v in ('data', 'hdr') for i in range(12)]
         out += [('C', 'all', lo, hi) for lo, hi in _slices(len(_G['typed']), 20)]
     out += [('D', fmt, kind, i) for fmt in ('csv', 'tsv', 'pickle') for kind in KINDS
@@ -616,8 +648,8 @@ def items(tier, seed):
 
 def cost(item):
     p = item[0]
-    if p in ('A', 'L'):
-        return {'dialects': 3, 'env': 4, 'envlite': 6, 'full': 9}[item[1]]
+    if p in ('A', 'L', 'Z'):
+        return {'dialects': 3, 'env': 4, 'envlite': 6, 'full': 9, 'zmem': 3, 'zenv': 4, 'zfull': 9}[item[1]]
     if p == 'B':
         return 8 if item[3] == 'all' else 2
     return {'C': 5, 'D': 2, 'DA': 3, 'R': 2, 'E': 3, 'F': 3, 'G': 1}[p]
@@ -636,6 +668,18 @@ def _cfgs_A(name):
         return [(fn, d, kind, enc, True, None) for fn, d in FORMS for enc in ENCS for kind in KINDS] + \
                [(fn, d, kind, enc, wh, hdr) for fn, d in FORMS[:2] for enc in ENCS for kind in KINDS
                 for wh, hdr in FLAGS[1:]]
+    rd = [(fn, d, 'mem', enc, True, None, rerr) for fn, d in FORMS[:2] for enc in Z_ENCS
+          for rerr in ('replace', 'ignore')]
+    if name == 'zmem':
+        return [(fn, d, 'mem', enc, wh, None) for fn, d in FORMS for enc in ('utf-8', 'utf-8-sig', 'utf-16')
+                for wh in (True, False)]
+    if name == 'zenv':
+        return [(fn, d, kind, enc, wh, hdr) for fn, d in FORMS[:2] for enc in Z_ENCS for kind in KINDS
+                for wh, hdr in (FLAGS[0], FLAGS[3])] + rd
+    if name == 'zfull':
+        return [(fn, d, kind, enc, True, None) for fn, d in FORMS for enc in Z_ENCS for kind in KINDS] + \
+               [(fn, d, kind, enc, wh, hdr) for fn, d in FORMS[:2] for enc in Z_ENCS for kind in KINDS
+                for wh, hdr in FLAGS[1:]] + rd
     raise ValueError(name)
 
 
@@ -669,7 +713,9 @@ def _table_facts(table):
 def _run_csv(acc, table, cfgs, part):
     chars, odd, numeric, maxord = _table_facts(table)
     rows_all = list(table)
-    for fn, d, kind, enc, wh, hdr in cfgs:
+    for cfg in cfgs:
+        fn, d, kind, enc, wh, hdr = cfg[:6]
+        rerr = cfg[6] if len(cfg) > 6 else None
         if maxord > _MAXORD.get(enc, 0x10ffff):
             acc.counters['excluded:not encodable'] += 1
             continue
@@ -679,7 +725,7 @@ def _run_csv(acc, table, cfgs, part):
                 continue
         acc.states += 1
         acc.transitions += 2
-        r = csv_case(fn, table, kind, enc, wh, hdr, d)
+        r = csv_case(fn, table, kind, enc, wh, hdr, d, rerrors=rerr)
         if r == 'excluded':
             acc.counters['excluded:csv.writer raises csv.Error'] += 1
             continue
@@ -693,20 +739,25 @@ def _run_csv(acc, table, cfgs, part):
             sig, exp, obs = r
             case = {'kind': 'csv', 'fn': fn, 'table': table, 'target': kind, 'enc': enc, 'wh': wh,
                     'hdr': hdr, 'dialect': d}
+            if rerr is not None:
+                case['rerrors'] = rerr
             acc.violation('csv round trip (to/from csv|tsv) on %s | %s' % (_where(kind, enc), sig), case, exp, obs,
-                          'to%s(%r, <%s>, encoding=%r, write_header=%r, %r) then from%s(header=%r)'
-                          % (fn, table, kind, enc, wh, csvargs_of(d), fn, hdr))
+                          'to%s(%r, <%s>, encoding=%r, write_header=%r, %r) then from%s(header=%r%s)'
+                          % (fn, table, kind, enc, wh, csvargs_of(d), fn, hdr,
+                             '' if rerr is None else ', errors=%r' % rerr))
     acc.outcome((part, len(table), len(chars), odd))
 
 
 def run_item(item, acc):
     p = item[0]
     f = _G['f']
-    if p in ('A', 'L'):
+    if p in ('A', 'L', 'Z'):
         _, name, lo, hi = item
         cfgs = _cfgs_A(name)
         if p == 'A':
             S = _G['S2'] if name == 'full' else _G['S']
+        elif p == 'Z':
+            S = _G['Z2'] if name == 'zfull' else _G['Z']
         else:
             S = _G['LB2'] if name == 'full' else _G['LB']
         for s in S[lo:hi]:
